@@ -746,6 +746,15 @@ func (sc *SpecCtx) evalCall(x *SCall) Term {
 		}
 		arr := c.heapGet(sc.st, "P:"+typeShortName(pt.Elem()), arraySort(sV, d.sortOf(pt.Elem())))
 		return Term{S: sSel(arr.S, v.S), Sort: arr.Sort.Elem, T: pt.Elem()}
+	case "unbox":
+		// unbox(x, "T"): the value of struct (or other non-reference) type T held by the interface value x
+		argn(2)
+		v := sc.eval(x.Args[0])
+		t := c.e.resolveGoType(specTypeString(x.Args[1]), sc.pkg, sc.pos)
+		if v.Sort.Kind != KV {
+			sc.fail("unbox: the first argument must be an interface value")
+		}
+		return c.unbox(v, t)
 	case "cast":
 		// cast(x, T): the interface value x seen as the V-sorted (pointer or opaque struct) type T it is asserted to hold
 		argn(2)
